@@ -12,7 +12,7 @@ import (
 // Profiles and registrations of the history-based properties that need no
 // reference model: C02, C07, C08, C15, C17.
 
-var collideVals = []interface{}{int32(1), float64(1), int64(1), gen.D128("1"), "1", nil, int32(2), bson.A{int32(1), int32(2)}, bson.A{int32(2), int32(3)}, bson.A{}, bson.D{{Key: "x", Value: int32(1)}}, "x", int32(3), bson.A{int32(1), int32(1)}}
+var collideVals = []interface{}{int32(1), float64(1), int64(1), gen.D128("1"), "1", nil, int32(2), bson.A{int32(1), int32(2)}, bson.A{int32(2), int32(3)}, bson.A{}, bson.D{{Key: "x", Value: int32(1)}}, "x", int32(3), bson.A{int32(1), int32(1)}, bson.A{bson.D{{Key: "b", Value: int32(1)}}}, bson.A{bson.D{{Key: "b", Value: "x"}}, bson.D{{Key: "b", Value: int32(2)}}}}
 
 func writeWeights(extra map[string]int) map[string]int {
 	w := map[string]int{
